@@ -125,6 +125,9 @@ Definition vstep (nalt : nat) (k : ekind) (vs : vvars) (o : vop) : vvars * out *
     match live_at vs i with
     | Some d =>
       if Nat.ltb a nalt then
+        if throws v then   (* destruct_ has set tag_ = invalid_tag before the placement new throws *)
+          (wr vs i (Live (mk_vrt None (vv d))), RThrow, if has_tag d then [EDestroy (sv i)] else [])
+        else
         (wr vs i (Live (mk_vrt (Some a) (fresh v))), RUnit,
          (if has_tag d then [EDestroy (sv i)] else []) ++ [EConstruct (sv i)])
       else vskip vs
@@ -173,9 +176,15 @@ Definition rvstep (nalt : nat) (vs : rvvars) (o : vop) : rvvars * out :=
     | Some _, Some s => (wr vs i (Live s), RUnit)
     | _, _ => (vs, RSkip)
     end
-  | VAssignVal i a v | VEmplace i a v =>
+  | VAssignVal i a v =>
     match live_at vs i with
     | Some _ => if Nat.ltb a nalt then (wr vs i (Live (Some (a, v))), RUnit) else (vs, RSkip)
+    | None => (vs, RSkip) end
+  | VEmplace i a v =>    (* std::variant::emplace: on an exception the variant is valueless (here: empty) *)
+    match live_at vs i with
+    | Some _ => if Nat.ltb a nalt then
+                  if throws v then (wr vs i (Live None), RThrow) else (wr vs i (Live (Some (a, v))), RUnit)
+                else (vs, RSkip)
     | None => (vs, RSkip) end
   | VGet i a | VCGet i a =>
     if Nat.ltb a nalt then
